@@ -55,7 +55,10 @@ class LamEval(ConstEval):
             if base is None:
                 raise NotConstant(f"attribute {e.attr} of None")
         if isinstance(e, ast.Call):
-            f = self.eval(e.func, env, mod)
+            try:
+                f = self.eval(e.func, env, mod)
+            except NotConstant:
+                f = None  # map / filter / zip ...: names the base evaluator summarises as calls
             if isinstance(f, Ext):
                 args = [self.eval(a, env, mod) for a in e.args]
                 kw = [(k.arg, self.eval(k.value, env, mod)) for k in e.keywords if k.arg]
